@@ -11,7 +11,7 @@ use crate::client::PREPARED_STATEMENT_COUNTER;
 use crate::config::get_config;
 use crate::errors::Error;
 
-use crate::constants::MESSAGE_TERMINATOR;
+use crate::constants::{MAX_MESSAGE_LENGTH, MESSAGE_TERMINATOR};
 use std::collections::hash_map::DefaultHasher;
 use std::collections::HashMap;
 use std::ffi::CString;
@@ -659,6 +659,14 @@ where
             )))
         }
     };
+
+    // The length counts itself. Like PostgreSQL, refuse to buffer more than 1 GB for one message.
+    if !(4..=MAX_MESSAGE_LENGTH).contains(&len) {
+        return Err(Error::SocketError(format!(
+            "Error reading message from socket - Code: {:?} - Length {:?}, Error: {:?}",
+            code, len, "Unexpected length value for message"
+        )));
+    }
 
     let mut bytes = BytesMut::with_capacity(len as usize + 1);
 
